@@ -31,7 +31,7 @@ ASSUMPTIONS = [
     'messages are issued by a single sender at a time',
     'with async_handlers enabled the harness runs background handlers FIFO',
 ]
-BUDGET = {'quick': 800, 'thorough': 40000}
+BUDGET = {'quick': 3000, 'thorough': 48000}
 FLOOR = {'quick': 100, 'thorough': 4000}
 NSS = ['/', '/a', '/ünï', '/x/y']
 RESERVED = {'connect', 'disconnect', 'connect_error', '__disconnect_final',
